@@ -185,9 +185,9 @@ CLAIM = dict(
          'leaves every returned byte, end-of-data condition, LastChunk and BlockLen value equal to those of the reader that ignores SetCache, and every call returns (cache_transparent_sync; '
          'invariant: a block is owned by exactly one of reader and cache, a cached block holds the data of the member at its key; the LRU/FIFO/Random models are proved to honour the Get/Put/Peek contract). '
          'The read-ahead reader with a cache violates the statement (recorded finding, refuted in Coq with a witness that is replayed on the code). '
-         'For rd > 1 a schedule-driven model is tied to the code under natural and gated schedules and the conservation of decompressors is proved for all schedules. '
+         'For rd > 1 a schedule-driven model is tied to the code under natural and gated schedules; the conservation of decompressors is proved for all schedules with or without a cache, and without a cache the model refines the flat reader under every schedule (Props/C02.v, reader_async_refines_flat_partial). '
          'The flat copy and the uncached run judge the implementation directly.',
-    note='Partial: rd > 1 with a cache is false (deadlock / "unexpected block", design-level finding); rd > 1 without a cache is not proved to refine the flat model (correspondence under 3-4 schedules per history + safety invariant only). '
+    note='Partial: rd > 1 with a cache is false (deadlock / "unexpected block", design-level finding); the rd > 1 model (one read-ahead iteration atomic) is tied to the code by correspondence under 3-4 schedules per history. '
          'Trusted: Coq kernel, hand models (validated by correspondence), abstract decompression, the harness gate and deadlock detector. No axioms.',
     technique='Coq proof (ownership invariant, simulation) over a hand model + vm_compute correspondence + flat-copy / uncached-run oracles',
     design='6/C03')
